@@ -120,6 +120,10 @@ QB_OPS = {
     "groupby:f": lambda r: r.groupby(A(t_().g)),
     "groupby:str": lambda r: r.groupby("g2"),
     "groupby:int": lambda r: r.groupby(1),
+    # a grouped / ordered term that carries the alias which "select:fn" defines: whether the alias or the expression
+    # is printed depends on the select list of this query alone
+    "groupby:al": lambda r: r.groupby(A((t_().g + 1).as_("m"))),
+    "orderby:al": lambda r: r.orderby(A((t_().o + 1).as_("m"))),
     "orderby:f": lambda r: r.orderby(A(t_().o), order=Order.asc),
     "orderby:str": lambda r: r.orderby("o2"),
     "rollup:f": lambda r: r.rollup(A(t_().r1)),
@@ -264,6 +268,7 @@ def families():
                    "schema": lambda: Table("t", schema=["d", "s"]),
                    "for": lambda: Table("t").for_(T.SystemTimeValue().as_of("2019"))}, TABLE_OPS)
     F["join"] = (_join_seeds(), JOIN_OPS)
+    F["sens"] = (zoo.sens_seeds(), {})
     for name, (n, build) in _ZOO_BY_NAME.items():
         def seed(build=build, n=n):
             return build([Table("t").field("c%d" % i) for i in range(max(n, 1))])
@@ -306,7 +311,7 @@ def chunks(tier, seed):
                 continue
             # one chunk per (family, seed, first op)
             for k1 in keys:
-                out.append({"fam": fam, "seed": sname, "op1": k1, "depth": 2})
+                out.append({"fam": fam, "seed": sname, "op1": k1, "depth": 2, "tier": tier})
             if tier == "thorough" and (fam.startswith(("setop:", "create", "drop", "load", "table", "term:", "join"))
                                        or fam in ("qb:generic", "qb:postgresql", "qb:mysql")):
                 for k1 in keys:
@@ -346,9 +351,14 @@ def expand(chunk):
     seeds, ops = FAM[fam]
     keys = list(ops)
     if chunk["depth"] == 2:
+        # histories with renders in between (every live object observed after every call)
+        yield {"fam": fam, "seed": sname, "ops": [k1], "shape": [0], "rend": True}
+        rend_pairs = not fam.startswith("qb:") or (chunk.get("tier") == "thorough" and fam in ("qb:generic", "qb:postgresql", "qb:mysql"))
         for k2 in keys:
             for sh in SHAPES2:
                 yield {"fam": fam, "seed": sname, "ops": [k1, k2], "shape": sh}
+                if rend_pairs:
+                    yield {"fam": fam, "seed": sname, "ops": [k1, k2], "shape": sh, "rend": True}
     else:
         if fam not in _CONT:
             _CONT[fam] = _container_ops(fam)
@@ -430,7 +440,67 @@ def _permitted_alias(live, pristine):
     return False
 
 
+def _obs_or_none(x):
+    return obs(x) if x is not None and hasattr(x, "get_sql") else None
+
+
+def run_rendered(case):
+    """The same histories with every live object rendered (observed) after every call: the observation of an object taken
+    before a call must be the observation taken after it (the property read literally; the attribute fingerprints used by
+    run_case are blind to state that only a render creates, e.g. a memo shared between the receiver and its copies),
+    and an object's observation must not depend on whether earlier objects were rendered."""
+    res = Result()
+    seeds, ops = FAM[case["fam"]]
+    shape, keys = case["shape"], case["ops"]
+    nodes = [seeds[case["seed"]]()]
+    before = [_obs_or_none(nodes[0])]
+    for i, key in enumerate(keys):
+        parent = nodes[shape[i]]
+        if parent is None:
+            nodes.append(None)
+            before.append(None)
+            continue
+        try:
+            x = ops[key](parent)
+        except Exception:
+            x = None
+        res.transitions += 1
+        bx = _obs_or_none(x) if x is not parent else None
+        for j in range(len(nodes)):
+            if nodes[j] is None or before[j] is None:
+                continue
+            now = obs(nodes[j])
+            res.transitions += 1
+            if now != before[j]:
+                role = "receiver" if nodes[j] is parent else "earlier-derived"
+                res.violate("C01|%s|%s|rendered" % (_sig_class(parent, key), role),
+                            "%s call %s (followed by a render of its result) changed what a live %s object renders" % (
+                                case["fam"], key, role),
+                            fam=case["fam"], seed=case["seed"], ops=keys, shape=shape, step=i, rend=True,
+                            diff=obs_diff(before[j], now))
+                before[j] = now
+        nodes.append(x if x is not parent else None)
+        before.append(bx)
+    if not res.violations:
+        plain, _, _ = _run_history(case)
+        for j in range(1, len(nodes)):
+            if nodes[j] is None or plain[j] is None or before[j] is None:
+                continue
+            ref = obs(plain[j])
+            if ref != before[j]:
+                res.violate("C01|%s|derived|render-history" % _sig_class(nodes[shape[j - 1]], keys[j - 1]),
+                            "the result of %s renders differently when earlier objects were rendered before the call" % keys[j - 1],
+                            fam=case["fam"], seed=case["seed"], ops=keys, shape=shape, rend=True, diff=obs_diff(ref, before[j]))
+                break
+    if nodes[-1] is not None and before[-1] is not None:
+        res.outcomes.append(h64(repr(before[-1])))
+    res.nontrivial = 1 if any(n is not None for n in nodes[1:]) else 0
+    return res
+
+
 def run_case(case):
+    if case.get("rend"):
+        return run_rendered(case)
     res = Result()
     seeds, ops = FAM[case["fam"]]
     shape, keys = case["shape"], case["ops"]
